@@ -22,6 +22,9 @@ DEFS = [
     ("bounds", "1 { b(X,Y) : e(Y) } 1 :- d(X).", False),
     ("sumhead", "1 #sum { 1,Y : b(X,Y) : e(Y) } :- d(X).", False),
     ("choice_chain", "{ c(X) } :- d(X). b(X,Y) :- c(X), e(Y).", True),
+    ("dneg_loop", "c(X) :- g(X). c(X) :- f(X). k(X) :- c(X). b(X,Y) :- d(X), e(Y), not not k(X).", True),
+    ("neg_loop", "c(X) :- g(X). c(X) :- f(X). k(X) :- not c(X), d(X). b(X,Y) :- d(X), e(Y), not k(X).", True),
+    ("pos_loop", "c(X) :- g(X). c(X) :- f(X). b(X,Y) :- d(X), e(Y), c(X).", True),
     ("fact_and_rule", "b(1,1). b(X,Y) :- d(X), e(Y).", False),
 ]
 DEFAULT_C = "c(X) :- d(X), f(X)."
@@ -52,6 +55,7 @@ USES = [
     ("condlit", "a :- d(X), c(X) : {L}."),
     ("aggregate", "a :- 1 <= #sum {{ 1 : {L} }}."),
     ("weak", ":~ {L}. [1@1]"),
+    ("loop", "g(X) :- {L}."),
 ]
 
 U0 = facts("d", [1, 2]) + facts("e", [1, 2]) + facts("f", [1, 2])
